@@ -71,7 +71,7 @@ def raw(w, spec_slots=None):
     state, theta = {}, {}
     for k, v in w.state_dict().items():
         (theta if k.endswith('theta_alpha') else state)[k] = thash(v)
-    rec, attrs, vals = {}, {}, {}
+    rec, attrs, vals, containers = {}, {}, {}, {}
     for n, m in mods:
         for k in m._non_persistent_buffers_set:      # buffers the state_dict does not show
             v = m._buffers.get(k)
@@ -85,11 +85,15 @@ def raw(w, spec_slots=None):
                 # plain tensor attributes: sampled coefficients of SuperNet combiners, and what a
                 # forward recomputes (weight ranges, bias scales)
                 (theta if k == 'theta_alpha' else rec)[n + '.' + k] = thash(v)
+            elif isinstance(v, (dict, list, set)) and k not in ('_cost_fn_map', '_cost_specification'):
+                # caches and other containers (contents may change in place): shallow signature
+                containers[n + '.' + k] = container_sig(v)
             else:
                 c = canon(v, m)
                 if c is not None and not k.startswith('_input_example'):
                     vals[n + '.' + k] = c
     r['state'], r['theta'], r['rec'], r['attrs'], r['vals'] = state, theta, rec, attrs, vals
+    r['containers'] = containers
     r['reqgrad'] = tuple((n, p.requires_grad) for n, p in w.named_parameters())
     r['nonpersistent'] = tuple(sorted(n + '.' + k for n, m in mods for k in m._non_persistent_buffers_set))
     r['rng'] = thash(torch.get_rng_state()) + ':' + hashlib.sha1(repr(_pyrandom.getstate()).encode()).hexdigest()[:8]
@@ -100,6 +104,23 @@ def raw(w, spec_slots=None):
         r['spec'] = str(id(cs))
     r['cost_fn_map'] = _fnmap_sig(getattr(w, '_cost_fn_map', None))
     return r
+
+
+def container_sig(v, depth=0):
+    """shallow, order-insensitive signature of a dict / list / set attribute"""
+    import torch
+
+    def one(x):
+        if isinstance(x, torch.Tensor):
+            return 'T:' + thash(x)
+        if isinstance(x, (bool, int, float, str, type(None))):
+            return repr(x)
+        if isinstance(x, (dict, list, set, tuple)) and depth < 2:
+            return container_sig(x, depth + 1)
+        return getattr(x, '__name__', None) or type(x).__name__
+    if isinstance(v, dict):
+        return 'dict{' + ','.join(sorted('%s:%s' % (str(k), one(x)) for k, x in v.items())) + '}'
+    return type(v).__name__ + '[' + ','.join(one(x) for x in (sorted(v, key=str) if isinstance(v, set) else v)) + ']'
 
 
 def _same_spec(a, b):
@@ -115,7 +136,7 @@ def _fnmap_sig(m):
 
 
 COMPONENTS = ('modes', 'state', 'theta', 'rec', 'attrs', 'vals', 'reqgrad', 'nonpersistent', 'rng', 'spec',
-              'cost_fn_map')
+              'cost_fn_map', 'containers')
 
 
 def changed(a, b):
@@ -123,7 +144,7 @@ def changed(a, b):
     out = {}
     for c in COMPONENTS:
         x, y = a[c], b[c]
-        if c in ('vals', 'rec'):
+        if c in ('vals', 'rec', 'containers'):
             # values of attributes present on both sides; additions / removals are in `attrs`
             common_keys = set(x) & set(y)
             x = {k: x[k] for k in common_keys}
@@ -169,6 +190,12 @@ class _Snapshot:
         self.params = [{k: keep(v) + (None if v is None else v.requires_grad,) for k, v in m._parameters.items()}
                        for m in self.mods]
         self.attrs = [{k: keep(v) for k, v in plain_attrs(m).items()} for m in self.mods]
+        # containers an observer may fill in place (caches): shallow copies, restored in place
+        self.containers = []
+        for m in self.mods:
+            for k, v in plain_attrs(m).items():
+                if type(v) in (dict, list, set):
+                    self.containers.append((v, type(v)(v)))
 
     @staticmethod
     def _put_back(obj, val, h):
@@ -197,6 +224,12 @@ class _Snapshot:
                 for k, (obj, val, h) in attrs.items():
                     vars(m)[k] = obj
                     self._put_back(obj, val, h)
+        for obj, saved in self.containers:
+            if isinstance(obj, list):
+                obj[:] = saved
+            else:
+                obj.clear()
+                obj.update(saved)
         torch.set_rng_state(self.rng)
         _pyrandom.setstate(self.pyrng)
 
